@@ -32,6 +32,8 @@ const SEEDS: &[RSeed] = &[
     RSeed { name: "triangulation", fen: "7k/8/8/8/8/8/8/K7 w - - 0 1", squares: &["a1", "b1", "b2", "h8", "g8"], why: "the white king triangulates: same placement with the other side to move is NOT a recurrence" },
     RSeed { name: "castling-right-lost", fen: "r3k2r/8/8/8/8/8/8/R3K2R w KQkq - 0 1", squares: &["a1", "b1", "h8", "g8", "h1", "g1", "a8", "b8"], why: "rook shuffles return the placement with fewer castling rights: NOT a recurrence" },
     RSeed { name: "ep-opportunity", fen: "4k3/8/8/8/4p3/8/3P4/4K3 w - - 0 1", squares: &["d2", "d4", "e1", "e2", "e8", "e7"], why: "the placement after d2d4 recurs later without the en-passant target: NOT a recurrence" },
+    RSeed { name: "single-pawn-step", fen: "4k3/8/8/8/8/8/3P4/4K3 w - - 0 1", squares: &["d2", "d3", "e1", "e2", "e8", "e7"], why: "the position right after a single pawn step recurs (an irreversible move made in mid-history)" },
+    RSeed { name: "capture", fen: "4k3/1p6/8/8/8/8/8/1R2K3 w - - 0 1", squares: &["b1", "b7", "e1", "e2", "e8", "e7", "d8"], why: "the position right after a capture recurs" },
     RSeed { name: "ep-opportunity-black", fen: "4k3/4p3/8/3P4/8/8/8/4K3 b - - 0 1", squares: &["e7", "e5", "e1", "e2", "e8", "d8"], why: "same with colours reversed" },
 ];
 
@@ -42,7 +44,7 @@ enum OpRec {
 }
 
 fn menu(pos: &Pos, allowed: &[Sq]) -> Vec<Move> {
-    pos.legal_moves().into_iter().filter(|m| allowed.contains(&m.from) && allowed.contains(&m.to) && m.captured.is_none()).collect()
+    pos.legal_moves().into_iter().filter(|m| allowed.contains(&m.from) && allowed.contains(&m.to)).collect()
 }
 
 struct Ctx<'a> {
@@ -351,7 +353,8 @@ pub fn run(a: &Args) -> i32 {
         rep.add("true_recurrences_registered", cx.recurrences);
         rep.add("third_occurrences", cx.threefold);
         rep.add("recurrences_of_placement_only_(other_side_rights_or_ep)", cx.placement_only_recurrences);
-        let glen = if thorough { 10 } else { 8 };
+        // the irreversible-move seeds need one ply more (the pawn step / capture itself)
+        let glen = if thorough { 10 } else if matches!(seed.name, "single-pawn-step" | "capture") { 9 } else { 8 };
         let (games, third, reported) = game_api(seed, &allowed, glen, &sink);
         rep.add("game_api_games_with_a_third_occurrence", games);
         rep.add("game_api_third_occurrences_checked", third);
@@ -361,7 +364,7 @@ pub fn run(a: &Args) -> i32 {
         samples.push(json!({"seed": seed.name, "fen": seed.fen, "menu_squares": seed.squares, "forces": seed.why, "history_length": len, "histories": cx.histories, "max_multiplicity": cx.max_mult}));
     }
     rep.samples = samples;
-    rep.bounds = json!({"alphabet": "menu moves (quiet moves between the listed squares) + undo", "history_length": len, "game_api_sequence_length": if thorough { 10 } else { 8 }});
+    rep.bounds = json!({"alphabet": "menu moves (moves between the listed squares, captures included) + undo", "history_length": len, "game_api_sequence_length": if thorough { "10" } else { "8 (9 for the irreversible-move seeds)" }});
     rep.rule = "state = operation history; every history over the alphabet up to the length bound is executed on one live board; counts, reported count and draw verdict compared with a multiset of full positions".into();
     rep.assumptions = vec!["positions are registered after the move is made and the turn has been passed (\"as it arises\")".into(), "multiplicities above 3 are not judged".into()];
     rep.mandatory = vec!["true_recurrences_registered".into(), "third_occurrences".into(), "recurrences_of_placement_only_(other_side_rights_or_ep)".into(), "game_api_third_occurrences_checked".into()];
